@@ -297,6 +297,10 @@ pub struct Plan {
     /// that close before it reports the step's / hook's result.
     #[serde(default, skip_serializing_if = "std::ops::Not::not")]
     pub late_logs: bool,
+    /// Tracing runs: user code opens no span of its own (every log is a plain event inside the span
+    /// cucumber made for the step / hook) - so every span that ever closes is one the runner waits for.
+    #[serde(default, skip_serializing_if = "std::ops::Not::not")]
+    pub plain_logs: bool,
 }
 
 pub const SITE_WORLD: &str = "world";
